@@ -7,6 +7,7 @@ From Coq Require Import NArith List Bool Arith.
 From Mpc Require Import Gen.Consts Base.Label Base.Codec Circuit.Circuit Circuit.Garble
      IO.Sha2pcCodec IO.Sha2pcProof IO.Sha2pcInstProof IO.RunC18.
 Import ListNotations.
+From Mpc Require Gen.State Base.StateExpected Base.StateCheck Base.StatePkgs.
 Open Scope N_scope.
 
 (* ---- C18_codec_roundtrip: for every curve and EVERY well-formed message /
@@ -409,3 +410,16 @@ Theorem C18_reject_nested_length_prefix : forall c sid chunk n r1,
   decodeCOSenderSetup c sid chunk = Err /\ decodeChoiceBundle c sid chunk = Err.
 Proof. exact reject_nested_length_prefix. Qed.
 Print Assumptions C18_reject_nested_length_prefix.
+
+(* STATE INVENTORY (finite obligation on the model regenerated from the source, checked by
+   computation).  The struct fields and package-level variables of the Go packages this
+   property is anchored in — ot, sha2pc — as emitted from /repo's current
+   source by harness/gen_state.go (Gen/State.v) are exactly those the models above were written
+   against (Base/StateExpected.v).  A new field or variable (a cache, a memo, a pool, a counter,
+   a changed field type) is state the models do not have: this obligation then breaks and the
+   property is no longer shown to hold until the change has been reviewed against the model. *)
+Theorem C18_state_inventory :
+  Mpc.Base.StateCheck.state_unchanged Mpc.Gen.State.state_inventory Mpc.Base.StateExpected.expected_state
+    Mpc.Base.StatePkgs.pkgs_C18 = true.
+Proof. vm_compute. reflexivity. Qed.
+Print Assumptions C18_state_inventory.
